@@ -209,7 +209,75 @@ static void run_ef(const Case& c) {
     }
 }
 
+// opts <id> [save] ; argv tokens ; cfg lines (tokens key=value) ; the config file is written to
+// $XDG_DATA_HOME/ivh_<id>.cfg and referenced from argv by the placeholder @CFG@
+static std::string dhex(double d) { uint64_t u; std::memcpy(&u, &d, 8); char b[24]; snprintf(b, sizeof b, "%016llx", (unsigned long long)u); return b; }
+static std::string sq(const std::string& s) { std::string r = "\""; for (char ch : s) { if (ch == ' ') r += "\\s"; else r += ch; } return r + "\""; }
+static void print_getters(const ProgramOptions& o) {
+    std::cout << "get"
+      << " CLDevice=" << o.getCLDevice() << " ImpedanceFile=" << sq(o.getImpedanceFile()) << " OutFile=" << sq(o.getOutFile())
+      << " SavePhaseSpace=" << o.getSavePhaseSpace()
+      << " StartDistFile=" << sq(o.getStartDistFile()) << " StartDistStep=" << o.getStartDistStep()
+      << " ParticleTracking=" << sq(o.getParticleTracking()) << " Verbosity=" << o.getVerbosity() << " ForceRun=" << o.getForceRun()
+      << " GridSize=" << o.getGridSize() << " OutSteps=" << o.getOutSteps() << " Padding=" << dhex(o.getPadding())
+      << " RoundPadding=" << o.getRoundPadding() << " StepsPerTsync=" << o.getStepsPerTsync() << " StepsPerTrev=" << dhex(o.getStepsPerTrev())
+      << " NRotations=" << dhex(o.getNRotations()) << " PhaseSpaceSize=" << hx(o.getPhaseSpaceSize()) << " PSShiftX=" << hx(o.getPSShiftX())
+      << " PSShiftY=" << hx(o.getPSShiftY()) << " RenormalizeCharge=" << o.getRenormalizeCharge() << " FPTrack=" << o.getFPTrack()
+      << " FPType=" << o.getFPType() << " DerivationType=" << o.getDerivationType() << " InterpolationPoints=" << o.getInterpolationPoints()
+      << " InterpolationClamped=" << o.getInterpolationClamped() << " Alpha0=" << hx(o.getAlpha0()) << " Alpha1=" << hx(o.getAlpha1())
+      << " Alpha2=" << hx(o.getAlpha2()) << " RFAmplitudeSpread=" << dhex(o.getRFAmplitudeSpread()) << " RFPhaseSpread=" << dhex(o.getRFPhaseSpread())
+      << " RFPhaseModAmplitude=" << dhex(o.getRFPhaseModAmplitude()) << " RFPhaseModFrequency=" << dhex(o.getRFPhaseModFrequency())
+      << " BeamEnergy=" << dhex(o.getBeamEnergy()) << " BendingRadius=" << dhex(o.getBendingRadius()) << " CutoffFrequency=" << hx(o.getCutoffFrequency())
+      << " EnergySpread=" << dhex(o.getEnergySpread()) << " HaissinskiIterations=" << o.getHaissinskiIterations()
+      << " HarmonicNumber=" << hx(o.getHarmonicNumber()) << " RevolutionFrequency=" << hx(o.getRevolutionFrequency())
+      << " RFVoltage=" << dhex(o.getRFVoltage()) << " StartDistZoom=" << dhex(o.getStartDistZoom()) << " SyncFreq=" << hx(o.getSyncFreq())
+      << " DampingTime=" << dhex(o.getDampingTime()) << " VacuumChamberGap=" << dhex(o.getVacuumChamberGap()) << " UseCSR=" << o.getUseCSR()
+      << " LinearRF=" << o.getLinearRF() << " CollimatorRadius=" << dhex(o.getCollimatorRadius()) << " WallConductivity=" << dhex(o.getWallConductivity())
+      << " WallSusceptibility=" << dhex(o.getWallSusceptibility()) << " BunchCurrents=";
+    bool first = true; for (float f : o.getBunchCurrents()) { std::cout << (first ? "" : ",") << hx(f); first = false; }
+    std::cout << '\n';
+}
+static bool parse_with(ProgramOptions& o, std::vector<std::string> args, std::string& status) {
+    std::vector<char*> av; for (auto& a : args) av.push_back(const_cast<char*>(a.c_str()));
+    std::stringstream sink; auto* old = std::cout.rdbuf(sink.rdbuf()); auto* olde = std::cerr.rdbuf(sink.rdbuf());
+    bool rv = false; status = "ok";
+    try { rv = o.parse(static_cast<int>(av.size()), av.data()); status = rv ? "run" : "norun"; }
+    catch (std::exception& e) { status = "error"; }
+    catch (...) { status = "error-unknown"; }
+    std::cout.rdbuf(old); std::cerr.rdbuf(olde);
+    return rv;
+}
+static void run_opts(const Case& c) {
+    bool dosave = c.head.size() > 2 && c.head[2] == "save";
+    std::string dir = std::getenv("XDG_DATA_HOME") ? std::getenv("XDG_DATA_HOME") : "/tmp";
+    std::string cfgpath = dir + "/ivh_" + c.id + ".cfg";
+    bool hascfg = false;
+    std::vector<std::string> args{"inovesa"};
+    for (auto a : c.argv) { if (a == "@CFG@") { a = cfgpath; hascfg = true; } else if (a == "@NOFILE@") a = dir + "/does_not_exist.cfg"; args.push_back(a); }
+    if (hascfg) { std::ofstream f(cfgpath); for (auto& l : c.cfg) f << l << "\n"; }
+    std::cout << "case " << c.id << '\n';
+    std::string st;
+    ProgramOptions o;
+    parse_with(o, args, st);
+    std::cout << "txt " << st << '\n';
+    if (st == "run") print_getters(o);
+    if (dosave && st == "run") {
+        std::string saved = dir + "/ivh_" + c.id + ".saved.cfg";
+        { std::stringstream sink; auto* old = std::cout.rdbuf(sink.rdbuf()); o.save(saved); std::cout.rdbuf(old); }
+        std::ifstream f(saved); std::string l; std::cout << "txt saved";
+        while (std::getline(f, l)) { if (l.empty() || l[0] == '#') continue; std::string t; for (char ch : l) t += (ch == ' ' ? '~' : ch); std::cout << ' ' << t; }
+        std::cout << '\n';
+        ProgramOptions o2; std::string st2;
+        parse_with(o2, {"inovesa", "--config", saved}, st2);
+        std::cout << "txt re" << st2 << '\n';
+        if (st2 == "run") print_getters(o2);
+        std::remove(saved.c_str());
+    }
+    if (hascfg) std::remove(cfgpath.c_str());
+}
+
 static bool dispatch_more(const Case& c) {
+    if (c.kind == "opts") { run_opts(c); return true; }
     if (c.kind == "ef") { run_ef(c); return true; }
     if (c.kind == "ps") { run_ps(c); return true; }
     if (c.kind == "coeffsweep") { run_coeffsweep(c); return true; }
